@@ -641,3 +641,112 @@ Example C04_unwrap_map_needs_no_defects :
     (JObj [])
     (ROk []).
 Proof. exact UnwrapMapFacts.unwrap_map_roundtrip_needs_no_defects. Qed.
+
+(* ---- appended by P10_oneof ---- *)
+
+(* The discriminated-oneof codec (oneof_discriminator.go), flattened and non-flattened, for ALL schemas and all
+   well-typed values: no member set, a scalar member, a message member whose type has no codec of its own.
+   - OneofPj.wt1 is ProtoJsonFacts.wt for a message type that declares oneofs (wt rejects every such type): members
+     singular, at most one member of each oneof populated; the children are well-typed in the sense of wt.
+   - defects_C04 = [] is the classifier's region (D4FlatOneofChild, D4OneofVariantReflect, D4FlatOneofRemarshal).
+   - distinct oneof names: what protoc guarantees.
+   - OneofFacts.oneof_keys_ok: the keys of the rendered object (populated fields, discriminators, inlined child fields)
+     and the keys the decoder looks up are pairwise distinct.  ValidateOneofDiscriminator checks part of it; it misses
+     a variant named like its own discriminator, a flattened child field named like its variant, two oneofs
+     sharing a discriminator or inlined names.
+   - OneofFacts.disc_values_ok: distinct discriminator values within a oneof (else the emitted switch has a duplicate case).
+   - OneofFacts.variant_types_plain: the populated message member's type has no codec of its own and is not Timestamp.
+     PARTIAL here: a member whose type owns a codec (the D4FlatOneofRemarshal region, and the non-flattened case where
+     the variant's own UnmarshalJSON is given the protojson form) is the sub-case that is not proved; Timestamp members
+     and an empty_behavior = NULL child are refuted below although no defect class fires.
+   - OneofFacts.variant_no_gap: four value shapes the classifier misses (refuted below). *)
+From SebufProofs Require OneofPj OneofFacts OneofExamples.
+Theorem C04_roundtrip_oneof_partial : forall E, ExtLaws E -> forall sc tn md m j,
+  find_message (all_messages sc) tn = Some md -> owner_of sc md = Own FtOneof ->
+  OneofPj.wt1 sc tn m = true ->
+  defects_C04 sc tn m = [] ->
+  NullableFacts.nodup_str (map o_name (m_oneofs md)) = true ->
+  OneofFacts.oneof_keys_ok sc md m = true -> OneofFacts.disc_values_ok md = true ->
+  OneofFacts.variant_types_plain sc md m = true -> OneofFacts.variant_no_gap sc md m = true ->
+  encode E sc tn m = ROk j -> decode E sc tn j = ROk (norm sc tn m).
+Proof. exact OneofFacts.oneof_roundtrip. Qed.
+Print Assumptions C04_roundtrip_oneof_partial.
+
+(* wt1 generalises wt (so the theorem also speaks about every value C04_roundtrip_full speaks about) and accepts
+   populated oneof members, which wt does not *)
+Theorem C04_wt1_generalises_wt : forall sc tn m,
+  str_eqb tn ts_name = false -> wt sc (KMessage tn) (FM m) = true -> OneofPj.wt1 sc tn m = true.
+Proof. exact OneofPj.wt_wt1. Qed.
+Print Assumptions C04_wt1_generalises_wt.
+Example C04_wt1_beyond_wt :
+  wt xs (KMessage (q "Event")) (FM [(s "eid", vstr "e"); (s "image", FM [(s "url", vstr "u")])]) = false /\
+  OneofPj.wt1 xs (q "Event") [(s "eid", vstr "e"); (s "image", FM [(s "url", vstr "u")])] = true /\
+  OneofPj.wt1 OneofExamples.os (q "Ev") [(s "text", vstr "a"); (s "ctype", vstr "b")] = false.
+Proof. exact OneofExamples.wt1_beyond_wt. Qed.
+
+(* non-vacuity: every hypothesis holds (OneofExamples.oneof_hyps lists them in the order of the statement), the member is
+   populated, the conclusion is evaluated.  Shared schema xs: Event (non-flattened), FlatEvent (flattened) *)
+Example C04_roundtrip_oneof_nonvacuous_xs :
+  OneofExamples.oneof_case_ok xs (q "Event") [(s "eid", vstr "e"); (s "image", FM [(s "url", vstr "u")])]
+    (JObj [(s "eid", JStr (s "e")); (s "image", JObj [(s "url", JStr (s "u"))]); (s "ctype", JStr (s "image"))]) /\
+  OneofExamples.oneof_case_ok xs (q "FlatEvent") [(s "eid", vstr "e"); (s "wide", FM [])]
+    (JObj [(s "eid", JStr (s "e")); (s "ctype", JStr (s "wide"))]).
+Proof. exact OneofExamples.oneof_nonvacuous_xs. Qed.
+(* schema OneofExamples.os: no member; a scalar member; a non-flattened message member (multi-word field, bool-keyed map);
+   a flattened message member (int64, repeated, map, double inlined); two configured oneofs at once *)
+Example C04_roundtrip_oneof_nonvacuous_os :
+  OneofExamples.oneof_case_ok OneofExamples.os (q "Ev") [(s "eid", vstr "e")] (JObj [(s "eid", JStr (s "e"))]) /\
+  OneofExamples.oneof_case_ok OneofExamples.os (q "Ev") [(s "eid", vstr "e"); (s "text", vstr "hi")]
+    (JObj [(s "eid", JStr (s "e")); (s "text", JStr (s "hi")); (s "ctype", JStr (s "text"))]) /\
+  OneofExamples.oneof_case_ok OneofExamples.os (q "Ev")
+    [(s "eid", vstr "e"); (s "note", FM [(s "body_text", vstr "b"); (s "w", vint 3); (s "bm", FMap [(VBool true, vstr "x")])])]
+    (JObj [(s "eid", JStr (s "e"));
+           (s "note", JObj [(s "bodyText", JStr (s "b")); (s "w", JNum 3); (s "bm", JObj [(s "true", JStr (s "x"))])]);
+           (s "ctype", JStr (s "note"))]) /\
+  OneofExamples.oneof_case_ok OneofExamples.os (q "Fl") [(s "eid", vstr "e"); (s "pic", OneofExamples.picv)]
+    (JObj ([(s "eid", JStr (s "e")); (s "ctype", JStr (s "pic"))] ++ OneofExamples.picj)) /\
+  OneofExamples.oneof_case_ok OneofExamples.os (q "Two")
+    [(s "eid", vstr "e"); (s "pic", OneofExamples.picv); (s "note", FM [(s "w", vint 3)])]
+    (JObj ([(s "eid", JStr (s "e")); (s "note", JObj [(s "w", JNum 3)]); (s "akind", JStr (s "pic"))] ++ OneofExamples.picj ++
+           [(s "bkind", JStr (s "note"))])).
+Proof. exact OneofExamples.oneof_nonvacuous_os. Qed.
+Print Assumptions C04_roundtrip_oneof_nonvacuous_os.
+
+(* every side condition is needed: all the other hypotheses hold (oneof_case_needs n: all but the n-th) and the round trip
+   fails.  4 = oneof_keys_ok *)
+Example C04_roundtrip_oneof_needs_keys_ok :
+  OneofExamples.oneof_case_needs 4 OneofExamples.os (q "Ev") [(s "eid", vstr "e"); (s "ctype", vstr "x")] /\
+  OneofExamples.oneof_case_needs 4 OneofExamples.os (q "Dup")
+    [(s "eid", vstr "e"); (s "pic", FM [(s "url", vstr "u")]); (s "leaf", FM [(s "a", vstr "x")])] /\
+  OneofExamples.oneof_case_needs 4 OneofExamples.os (q "Fl") [(s "eid", vstr "e"); (s "self", FM [(s "self", vstr "x")])].
+Proof. exact OneofExamples.oneof_needs_keys_ok. Qed.
+(* the generators' own validation accepts the message types of these witnesses *)
+Example C04_roundtrip_oneof_validator_accepts :
+  OneofExamples.validator_accepts OneofExamples.os (q "Ev") = true /\ OneofExamples.validator_accepts OneofExamples.os (q "Fl") = true /\
+  OneofExamples.validator_accepts OneofExamples.os (q "Dup") = true /\ OneofExamples.validator_accepts OneofExamples.os (q "Dv") = true /\
+  OneofExamples.validator_accepts OneofExamples.os (q "Two") = true.
+Proof. exact OneofExamples.oneof_validator_accepts. Qed.
+(* 5 = disc_values_ok *)
+Example C04_roundtrip_oneof_needs_disc_values :
+  OneofExamples.oneof_case_needs 5 OneofExamples.os (q "Dv") [(s "pic", FM [(s "url", vstr "u")])].
+Proof. exact OneofExamples.oneof_needs_disc_values. Qed.
+(* 6 = variant_types_plain: Timestamp member (non-flattened, flattened), empty_behavior = NULL child; no defect class fires *)
+Example C04_roundtrip_oneof_needs_types_plain :
+  OneofExamples.oneof_case_needs 6 OneofExamples.os (q "Ev") [(s "eid", vstr "e"); (s "at", FM [])] /\
+  OneofExamples.oneof_case_needs 6 OneofExamples.os (q "Fl") [(s "eid", vstr "e"); (s "at", FM [(s "seconds", vint 5)])] /\
+  OneofExamples.oneof_case_needs 6 OneofExamples.os (q "Fl") [(s "eid", vstr "e"); (s "ec", FM [(s "nul_it", FM [])])].
+Proof. exact OneofExamples.oneof_needs_types_plain. Qed.
+(* 7 = variant_no_gap: empty optional bytes / bool-keyed map (flattened), NaN in a repeated double / multi-word key folding onto
+   another field (non-flattened); no defect class fires *)
+Example C04_roundtrip_oneof_needs_no_gap :
+  OneofExamples.oneof_case_needs 7 OneofExamples.os (q "Fl") [(s "eid", vstr "e"); (s "pic", FM [(s "ob", FS (VBytes []))])] /\
+  OneofExamples.oneof_case_needs 7 OneofExamples.os (q "Fl") [(s "eid", vstr "e"); (s "pic", FM [(s "bm", FMap [(VBool true, vstr "x")])])] /\
+  OneofExamples.oneof_case_needs 7 OneofExamples.os (q "Ev")
+    [(s "eid", vstr "e"); (s "note", FM [(s "fs", FL [FS (VFloat 9221120237041090561)])])] /\
+  OneofExamples.oneof_case_needs 7 OneofExamples.os (q "Ev") [(s "eid", vstr "e"); (s "fo", FM [(s "alt_text", vstr "x")])].
+Proof. exact OneofExamples.oneof_needs_no_gap. Qed.
+(* 2 = defects_C04 = [] *)
+Example C04_roundtrip_oneof_needs_no_defects :
+  OneofExamples.oneof_case_needs 2 xs (q "Event") [(s "image", FM [(s "size", vint 7)])] /\
+  OneofExamples.oneof_case_needs 2 xs (q "FlatEvent") [(s "eid", vstr "e"); (s "wide", FM [(s "alt_text", vstr "a")])].
+Proof. exact OneofExamples.oneof_needs_no_defects. Qed.
